@@ -210,9 +210,29 @@ OPS = {"<": lambda a, b: a < b, ">": lambda a, b: a > b, "<=": lambda a, b: a <=
        ">=": lambda a, b: a >= b, "==": lambda a, b: a == b, "!=": lambda a, b: a != b}
 
 
+def _error_path(case, ctx):
+    """Error path taken before some cases: conversions of MALFORMED timestamps (month 13 / 25 / 0, day 0 / 32, as a
+    day-month mix-up while reading produces them) in leap and common years, and readTimestamp on garbage.  Whatever
+    they do -- raise or return nonsense -- is not judged; the valid conversions that follow must be unaffected."""
+    from tracklib.core.obs_time import ObsTime
+    key = sum(ord(c) for c in repr(sorted(case.items())))
+    if key % 7:
+        return
+    y = (2024, 2023, 2000, 2100 - 1, 1972)[key % 5]
+    mo, d = ((25, 2), (13, 1), (0, 10), (2, 32), (12, 0))[(key // 5) % 5]
+    t = ObsTime(y, 2, 10)
+    t.month, t.day = mo, d
+    M.call(t.toAbsTime)
+    M.call(lambda: t < ObsTime(y, 3, 1))
+    M.call(ObsTime.readTimestamp, "not a date")
+    del ctx.broken[:]          # nothing the malformed calls did is judged (the well-formedness contract included)
+    ctx.count("error_path_taken_before_case")
+
+
 def run_case(case, ctx):
     from tracklib.core.obs_time import ObsTime
     kind = case["kind"]
+    _error_path(case, ctx)
     if kind == "day":
         y, m, d = case["ymd"]
         base = gen.ms_from_fields(y, m, d)
